@@ -40,7 +40,13 @@ var Props = []*common.Prop{outProp("C01"), outProp("C04"), outProp("C17"),
 		common.Part{Name: "udpsessions", Weight: 1, P: &common.Prop{ID: "C03", New: func() interface{} { return &UDPLifeCase{} },
 			Gen:    func(r *simrt.Rand, tier string, idx int) interface{} { return genUDPLifeCase(r, tier) },
 			Run:    runUDPLife,
-			Shrink: shrinkUDPLife}}),
+			Shrink: shrinkUDPLife}},
+		// Stop racing accepts, dials (pending, refused, completed at once) and closes, judged for the
+		// lifecycle clauses instead of for termination
+		common.Part{Name: "stoprace", Weight: 1, P: &common.Prop{ID: "C03", New: func() interface{} { return &StopCase{} },
+			Gen:    func(r *simrt.Rand, tier string, idx int) interface{} { return genStopCase(r, tier) },
+			Run:    func(t *testing.T, c interface{}, trace bool) *common.Outcome { return runStopAs(t, c, trace, "C03") },
+			Shrink: shrinkStop}}),
 	common.Combine("C02",
 		common.Part{Name: "inbound", Weight: 7, P: inProp()},
 		// "when no input is pending the readers go idle": the outbound scenarios (accepted, added and
